@@ -42,7 +42,7 @@ fn vk_{short}_ops<const P: usize, const L: usize>() {{
 #[kani::proof] #[kani::unwind(6)] fn vk_{short}_ops_p1() {{ vk_{short}_ops::<1, 4>() }}
 // @harness vk_{short}_ops_p2 props=C12 kind=bounded(period=2,ops=6) tier=quick
 #[kani::proof] #[kani::unwind(8)] fn vk_{short}_ops_p2() {{ vk_{short}_ops::<2, 6>() }}
-// @harness vk_{short}_ops_p3 props=C12 kind=bounded(period=3,ops=8) tier=thorough
+// @harness vk_{short}_ops_p3 props=C12 kind=bounded(period=3,ops=8) tier={'thorough' if short in ('sd', 'mfi') else 'quick'}
 #[kani::proof] #[kani::unwind(10)] fn vk_{short}_ops_p3() {{ vk_{short}_ops::<3, 8>() }}
 
 // reset after any K finite inputs, then one more input: same output bits and same cursor state as a fresh instance
@@ -58,7 +58,7 @@ fn vk_{short}_reset_fresh<const P: usize, const K: usize>() {{
 }}
 // @harness vk_{short}_reset_fresh_p2 props=C04 kind=bounded(period=2,history=5) tier=quick
 #[kani::proof] #[kani::unwind(8)] fn vk_{short}_reset_fresh_p2() {{ vk_{short}_reset_fresh::<2, 5>() }}
-// @harness vk_{short}_reset_fresh_p3 props=C04 kind=bounded(period=3,history=7) tier=thorough
+// @harness vk_{short}_reset_fresh_p3 props=C04 kind=bounded(period=3,history=7) tier={'thorough' if short in ('sd',) else 'quick'}
 #[kani::proof] #[kani::unwind(10)] fn vk_{short}_reset_fresh_p3() {{ vk_{short}_reset_fresh::<3, 7>() }}
 '''
     inits = ''.join('%s: kani::any(), ' % f for f in flds)
